@@ -186,6 +186,10 @@ impl S3 for FileSystem {
             }
         }
 
+        if self.get_bucket_path(&input.bucket)?.exists().not() {
+            return Err(s3_error!(NoSuchBucket));
+        }
+
         let mut deleted_objects: Vec<DeletedObject> = Vec::new();
         for (path, key) in objects {
             try_!(fs::remove_file(path).await);
